@@ -108,7 +108,7 @@ struct Cfg {
 const EACS: [&str; 4] = ["", "ECU1", ":AP1", "ECU2:AP2:CT2,ECU1::CT1"];
 
 fn cfg_json(c: &Cfg) -> Value {
-    let ffn = ["", "dlf", "dlt-convert"][c.ffile];
+    let ffn = ["", "dlf", "dlt-convert", "dlf with marker+event filters"][c.ffile];
     let stn = ["-a", "-x", "-s", ""][c.style];
     json!({"family": "options", "b": c.b, "e": c.e, "lcs": c.lcs, "eac": EACS[c.eac], "eac_i": c.eac, "filter_file": ffn, "ffile": c.ffile,
         "sort": c.sort, "style": stn, "style_i": c.style, "o": c.out, "file_perm": c.perm, "dup_file_arg": c.dup})
@@ -135,7 +135,10 @@ pub struct World {
     pub merged: Vec<Gm>,
     /// CLI lifecycle id per merged message (fresh process: ids count from 1 in creation order)
     lc: Vec<u32>,
+    /// calculated time per merged message (lifecycle start + timestamp, capped at the reception time)
+    calc: Vec<u64>,
     dlf: String,
+    dlf_marker: String,
     conv: String,
 }
 
@@ -163,8 +166,11 @@ impl World {
         let x = adlt::lifecycle::Lifecycle::new(&mut probe).id();
         let res = crate::lc::run_stage(&[&msgs]).expect("lifecycle stage");
         let mut lc = vec![0u32; merged.len()];
+        let mut calc = vec![0u64; merged.len()];
         for (m, _) in &res.delivered {
             lc[m.index as usize] = m.lifecycle - x;
+            let start = res.table.get(&m.lifecycle).map(|l| l.start).unwrap_or(0);
+            calc[m.index as usize] = (start + m.timestamp_dms as u64 * 100).min(m.reception_time_us);
         }
         // filter files
         let dlf = format!("{dir}/f.dlf");
@@ -174,9 +180,19 @@ impl World {
   <filter><type>1</type><name>n</name><ecuid></ecuid><applicationid></applicationid><contextid>CT2</contextid><enableregexp_Context>0</enableregexp_Context><enablefilter>1</enablefilter><enableecuid>0</enableecuid><enableapplicationid>0</enableapplicationid><enablecontextid>1</enablecontextid><enablepayloadtext>0</enablepayloadtext></filter>
 </dltfilter>
 "#).expect("write dlf");
+        // a dlf file that also holds an enabled marker (type 2) and an enabled event (type 3) filter: both are no
+        // selection filters for convert
+        let dlf_marker = format!("{dir}/f_marker.dlf");
+        std::fs::write(&dlf_marker, r#"<?xml version="1.0" encoding="UTF-8"?>
+<dltfilter>
+  <filter><type>0</type><name>p</name><applicationid>AP1</applicationid><enableregexp_Appid>0</enableregexp_Appid><enablefilter>1</enablefilter><enableecuid>0</enableecuid><enableapplicationid>1</enableapplicationid><enablecontextid>0</enablecontextid><enablepayloadtext>0</enablepayloadtext></filter>
+  <filter><type>2</type><name>m</name><contextid>CT2</contextid><enableregexp_Context>0</enableregexp_Context><enablefilter>1</enablefilter><enableecuid>0</enableecuid><enableapplicationid>0</enableapplicationid><enablecontextid>1</enablecontextid><enablepayloadtext>0</enablepayloadtext></filter>
+  <filter><type>3</type><name>e</name><ecuid>ECU2</ecuid><enablefilter>1</enablefilter><enableecuid>1</enableecuid><enableapplicationid>0</enableapplicationid><enablecontextid>0</enablecontextid><enablepayloadtext>0</enablepayloadtext></filter>
+</dltfilter>
+"#).expect("write dlf");
         let conv = format!("{dir}/f.txt");
         std::fs::write(&conv, "AP2- CT1- AP1- CT2- ").expect("write conv");
-        World { dir, files, merged, lc, dlf, conv }
+        World { dir, files, merged, lc, calc, dlf, dlf_marker, conv }
     }
     /// positive filters (ecu, apid, ctid) and negative filters of a configuration
     fn keep(&self, c: &Cfg, m: &Gm) -> bool {
@@ -190,6 +206,10 @@ impl World {
             2 => {
                 pos.push((None, Some(b"AP2"), Some(b"CT1")));
                 pos.push((None, Some(b"AP1"), Some(b"CT2")));
+            }
+            3 => {
+                // marker and event filters do not select
+                pos.push((None, Some(b"AP1"), None));
             }
             _ => {}
         }
@@ -267,6 +287,9 @@ fn run_cfg(w: &World, c: &Cfg, tag: u64) -> Vec<(String, String, String)> {
         2 => {
             cmd.arg("-f").arg(&w.conv);
         }
+        3 => {
+            cmd.arg("-f").arg(&w.dlf_marker);
+        }
         _ => {}
     }
     if c.sort {
@@ -319,6 +342,14 @@ fn run_cfg(w: &World, c: &Cfg, tag: u64) -> Vec<(String, String, String)> {
             viol.push(("selection".into(), sel_disc(c), format!("printed indices {:?} != expected {:?}", sorted, expected)));
         } else if !c.sort && got != expected {
             viol.push(("order".into(), "".into(), format!("unsorted output not ascending: {:?}", got)));
+        } else if c.sort {
+            // the generated input satisfies the sort premise (reception never decreases, delays of a few ms << 20 s):
+            // the output must be ordered by calculated time, ties in original order
+            let mut want = expected.clone();
+            want.sort_by_key(|i| (w.calc[*i as usize], *i));
+            if got != want {
+                viol.push(("sorted_order".into(), "".into(), format!("--sort output order {:?} != order by calculated time {:?}", got, want)));
+            }
         }
         // the text of every printed line must be the message's (ascii style)
         if c.style == 0 {
@@ -386,11 +417,11 @@ fn configs(tier: Tier) -> Vec<Cfg> {
     let es: Vec<Option<u32>> = if thorough { vec![None, Some(5), Some(100)] } else { vec![None, Some(5)] };
     let lcss: Vec<Option<Vec<u32>>> = if thorough { vec![None, Some(vec![1]), Some(vec![2]), Some(vec![1, 3])] } else { vec![None, Some(vec![2]), Some(vec![1, 3])] };
     let eacs: Vec<usize> = if thorough { vec![0, 1, 2, 3] } else { vec![0, 2, 3] };
-    let ffiles = [0usize, 1, 2];
+    let ffiles = [0usize, 1, 2, 3];
     let sorts = [false, true];
     let styles_out: Vec<(usize, bool)> = if thorough { vec![(0, false), (1, false), (2, false), (0, true), (1, true), (2, true), (3, true)] } else { vec![(0, false), (2, true), (3, true)] };
     // sorted permutations of 4 files: 0 = identity, 18 = [3,0,1,2] (the two-ECU file first), 17 = [2,3,1,0]
-    let perms: Vec<usize> = if thorough { (0..24).collect() } else { vec![0, 18, 17] };
+    let perms: Vec<usize> = if thorough { (0..24).collect() } else { vec![0, 18] };
     let mut v = vec![];
     for b in &bs {
         for e in &es {
@@ -425,11 +456,11 @@ impl Prop for C14 {
         Meta {
             id: "C14",
             level: "exploration",
-            rule: "full product of adlt convert options against the binary built from the working tree: -b {-,0,3} x -e {-,5,100} x --lcs {-,{1},{2},{1,3}} x --eac {-,ECU1,:AP1,'ECU2:AP2:CT2,ECU1::CT1'} x -f {-, DLF file (positive APID + negative CTID), dlt-convert list} x --sort x style/-o {-a,-x,-s with and without -o, -o alone} x every permutation of four generated input files (ECU1 with two boots and garbage between messages, ECU2, a continuation file of ECU1, a file carrying both ECUs interleaved in time) + the first file named twice (quick: a 2-3 valued sub-product). Oracle computed in the harness from the generated messages: merged index order = global reception order, lifecycle ids = library detector on the merged stream renumbered as a fresh process counts, filters by their stated meaning (--eac parsed independently); printed indices = expected selection, each once, ascending when unsorted, ascii lines show the message; the -o file re-reads (library iterator, nothing skipped) to exactly the selected messages; identical for every file-argument order. Non-trivial = any selecting option set.".into(),
+            rule: "full product of adlt convert options against the binary built from the working tree: -b {-,0,3} x -e {-,5,100} x --lcs {-,{1},{2},{1,3}} x --eac {-,ECU1,:AP1,'ECU2:AP2:CT2,ECU1::CT1'} x -f {-, DLF file (positive APID + negative CTID), dlt-convert list, DLF file with an additional enabled marker and event filter} x --sort x style/-o {-a,-x,-s with and without -o, -o alone} x every permutation of four generated input files (ECU1 with two boots and garbage between messages, ECU2, a continuation file of ECU1, a file carrying both ECUs interleaved in time) + the first file named twice (quick: a 2-3 valued sub-product). Oracle computed in the harness from the generated messages: merged index order = global reception order, lifecycle ids = library detector on the merged stream renumbered as a fresh process counts, filters by their stated meaning (--eac parsed independently); printed indices = expected selection, each once, ascending when unsorted, ascii lines show the message; the -o file re-reads (library iterator, nothing skipped) to exactly the selected messages; identical for every file-argument order. Non-trivial = any selecting option set.".into(),
             assumptions: vec!["one generated input set (20 messages, 4 files); lifecycle ids of the CLI are assumed to count from 1 in creation order in a fresh process".into()],
             budget_s: (50, 1500),
             workers: 1,
-            required_landmarks: vec!["window", "lcs", "eac", "ffile_dlf", "ffile_conv", "sort", "o_file", "perm", "empty_selection", "nonempty_selection", "export_twice"],
+            required_landmarks: vec!["window", "lcs", "eac", "ffile_dlf", "ffile_conv", "ffile_dlf_marker", "sort", "o_file", "perm", "empty_selection", "nonempty_selection", "export_twice"],
         }
     }
     fn prepare(&self, _t: Tier) -> Result<(), String> {
@@ -479,7 +510,7 @@ impl Prop for C14 {
         for (_, c, v) in res {
             ctx.mine();
             let exp = w.expected(&c);
-            for (flag, name) in [(c.b.is_some() || c.e.is_some(), "window"), (c.lcs.is_some(), "lcs"), (c.eac > 0, "eac"), (c.ffile == 1, "ffile_dlf"), (c.ffile == 2, "ffile_conv"), (c.sort, "sort"), (c.out, "o_file"), (c.perm > 0, "perm"), (exp.is_empty(), "empty_selection"), (!exp.is_empty(), "nonempty_selection")] {
+            for (flag, name) in [(c.b.is_some() || c.e.is_some(), "window"), (c.lcs.is_some(), "lcs"), (c.eac > 0, "eac"), (c.ffile == 1, "ffile_dlf"), (c.ffile == 2, "ffile_conv"), (c.ffile == 3, "ffile_dlf_marker"), (c.sort, "sort"), (c.out, "o_file"), (c.perm > 0, "perm"), (exp.is_empty(), "empty_selection"), (!exp.is_empty(), "nonempty_selection")] {
                 if flag {
                     ctx.landmark(name);
                 }
